@@ -200,6 +200,10 @@ def shape_s(s, aret):
         return s
     if t == "SExpr":
         e = shape(s[1])
+        if e == ("EStr", "use strict"):
+            # after fix 74a3e23 boa's printer parenthesises a leading "use strict" string statement of a non-strict list
+            # (strictness is outside the model): keep such statements parenthesised in the generated AST
+            e = paren(e)
         w = first_word(e)
         if w in ("{", "K:function", ";") or (w.startswith("K:") and w[2:] not in ("this", "new", "delete", "void", "typeof")):
             e = paren(e)
